@@ -254,6 +254,12 @@ def make_hashable(ctx):
                 b = m["g"][3][0][0]
                 ok = m["g"][2] == ("tuple", ("i", b, ("c", 0)), ("call", ("n", "make_hashable"), (("i", b, ("c", 1)),), ()))
             req = "frozenset of (key, make_hashable(value)) pairs over all items: equal mappings give equal results, order-insensitive"
+        elif any(v_ and pmatch("isinstance(Q_v, Q_t)", t_) is not None and tstr(pmatch("isinstance(Q_v, Q_t)", t_)["t"]) in ("AbstractSet", "Set", "collections.abc.Set", "(set, frozenset)", "set") for t_, v_ in ex.config):
+            # a set's iteration order is not part of its value: equal sets must give equal results (F14)
+            kind = "set"
+            m = pmatch("frozenset(Q_g)", v)
+            ok = m is not None and m["g"][0] == "lc" and len(m["g"][3]) == 1 and m["g"][3][0][1] == val and not m["g"][3][0][2] and m["g"][2] == ("call", ("n", "make_hashable"), (m["g"][3][0][0],), ())
+            req = "frozenset of make_hashable(element): order-insensitive, like the set itself"
         elif cfg.get("isinstance(val, Iterable)") is True:
             kind = "iterable"
             m = pmatch("tuple(Q_g)", v)
@@ -265,7 +271,8 @@ def make_hashable(ctx):
             req = "a hashable value is returned unchanged (after hash(val) succeeded)"
         seen.add(kind)
         ctx.check(ok, "C41.make-hashable", r.site, f"make_hashable[{kind}]", found=tstr(v)[:160], required=req)
-    ctx.check(seen == {"mapping", "iterable", "hashable"}, "C41.make-hashable-kinds", fn.site, "make_hashable.kinds", found=str(sorted(seen)), required="hashable, mapping and iterable arguments are all handled")
+    ctx.check(seen == {"mapping", "set", "iterable", "hashable"}, "C41.make-hashable-kinds", fn.site, "make_hashable.kinds", found=str(sorted(seen)),
+              required="hashable, mapping, set and (ordered) iterable arguments are told apart: only for ordered iterables is the order part of the value")
     rr = fn.facts(Raise)
     ctx.check(bool(rr), "C41.make-hashable-reraise", fn.site, "make_hashable.other", found=f"{len(rr)} raise(s)", required="anything else re-raises the TypeError", nontrivial=False)
 
